@@ -90,7 +90,7 @@ static Bytes tstr_image(Rng& r, bool T, int kind) {
   const uint8_t lg_k = static_cast<uint8_t>(r.range(5, T ? 6 : 5));
   auto s = upd_str_tuple::builder().set_lg_k(lg_k).build();
   const uint64_t n = tuple_n(r, kind, 1ULL << lg_k), base = r.next();
-  for (uint64_t i = 0; i < n; ++i) s.update(static_cast<uint64_t>(base + i * UINT64_C(0x9e3779b97f4a7c15)), std::string(static_cast<size_t>(i % 5), static_cast<char>('a' + i % 26)));
+  for (uint64_t i = 0; i < n; ++i) s.update(static_cast<uint64_t>(base + i * UINT64_C(0x9e3779b97f4a7c15)), std::string(static_cast<size_t>(i % 5), static_cast<char>('a' + i % 26)) + long_pad(i));
   auto v = s.compact(kind != U_EXACT_UNORD).serialize();
   return Bytes(v.begin(), v.end());
 }
